@@ -6,6 +6,10 @@ def S(name, build, tiers=("quick", "thorough"), args=(), **kw):
     return d
 
 STAGES = {
+    "C04": [S("native", "native")],
+    "C05": [S("native", "native")],
+    "C07": [S("native", "native")],
+    "C20": [S("native", "native")],
     "C06": [S("native", "native")],
     "C12": [S("native", "native")],
     "C01": [S("native", "native")],
@@ -23,6 +27,10 @@ STAGES = {
 }
 
 LEVELS = {
+    "C04": "exploration",
+    "C05": "exploration",
+    "C07": "exploration",
+    "C20": "exploration",
     "C06": "exploration",
     "C12": "exploration",
     "C01": "exploration",
@@ -34,6 +42,22 @@ LEVELS = {
 }
 
 ASSUMPTIONS = {
+    "C04": [
+        "sentinel threads load generated values into every register and then either spin in a 2-instruction loop or block in a raw pause syscall with all signals blocked, so the register file the kernel reports is known to the checker",
+        "for threads blocked in a syscall RAX, RCX and R11 are not compared (clobbered by the syscall ABI)",
+        "interleavings are placed at hook points (threads enumerated, before attach, after the i-th flush); not every interleaving is enumerated",
+    ],
+    "C05": [
+        "the greg index table and the FXSAVE layout in harness/src/dump.rs and props/c05.rs are correct",
+        "a dump that returns Err (e.g. blamed tid not in the process) is counted as no verdict",
+    ],
+    "C07": [
+        "pattern regions are never written after setup; other descriptors are compared with /proc/<pid>/mem of quiescent threads only (the running main thread's stack is skipped)",
+    ],
+    "C20": [
+        "only the quiescent sentinel threads are judged (the target's main thread runs)",
+        "the soft error is required only in the two cases the statement names (address matches no mapping; crash context given and the crash thread does not reference)",
+    ],
     "C06": [
         "the stack pointer of a listed thread is taken from that thread's own context in the same image (crash context for the blamed thread); C04/C05 judge those contexts",
         "mapping ends and permissions come from the checker's own read of /proc/<pid>/maps; bytes from /proc/<pid>/mem of the quiescent sentinel threads",
@@ -70,6 +94,26 @@ ASSUMPTIONS = {
 }
 
 META = {
+    "C04": {
+        "technique": "sentinel-register oracle (every register of every target thread is generated ground truth) + tid-set equality + vanished-thread placement through sync hooks + spinner-triple snapshot invariant with injected delays after each flush",
+        "level_text": "Real dumps of targets with 1..64 threads whose sentinel threads hold generated values in all 16 GPRs, flags, segment selectors, XMM0-15, MXCSR, x87 CW and ST0-7; each captured context is compared field by field; tid sets must match exactly; exiter threads leave at hook-placed points and must be listed or reported; a spinner keeps one counter in a register, a stack slot and an application word whose captured values may differ by at most one step, with a delay injected after every flush index in turn. Exploration over sampled schedules.",
+        "level_note": "Schedules are sampled at hook-defined points, not enumerated. Debug registers, FS/GS base and AVX state are not compared.",
+    },
+    "C05": {
+        "technique": "differential monitor: own decoding table of the supplied ucontext/fpstate/siginfo vs. the context and exception record in the image; walking-one patterns attribute a dropped/swapped field exactly",
+        "level_text": "Direct level: 20k (quick) / 200k (thorough) random and walking-one contexts through CrashContext::fill_cpu_context. Image level: real dumps with random crash contexts and blamed thread in {main, other thread, absent}; exception code/flags/address/thread id, identity of the exception context location with the blamed thread's entry, and both contexts are compared; without a context the record must say dump-requested with the captured instruction pointer and the captured (sentinel-verified) context.",
+        "level_note": "Only x86-64. With an absent blamed tid the dump fails in a mandatory stream (no verdict).",
+    },
+    "C07": {
+        "technique": "byte-equality oracle between every memory-list descriptor and address-derived fill patterns / /proc/<pid>/mem; multiset inclusion of requested regions; instruction-pointer window bound checks at mapping boundaries",
+        "level_text": "Real dumps with 0..16 application regions of boundary lengths and alignments, adjacent to unmapped pages, crash instruction pointers at 9 positions relative to mapping boundaries or in a hole, 1..9 threads. Every descriptor's bytes are compared with the target; requested regions must appear exactly; every non-empty stack must be listed; the IP window must be exactly [max(start,ip-128), min(end,ip+128)). Exploration.",
+        "level_note": "Regions that the checker itself cannot read are not judged.",
+    },
+    "C20": {
+        "technique": "iff-oracle: the checker reads each thread's stack itself and decides reference/non-reference with half-open bounds, then compares with which stacks the image includes; boundary values start-1,start,end-1,end,end+1; misaligned and below-sp holders",
+        "level_text": "Targets of 1..24 sentinel threads on zero-filled stacks each built as holder / non-holder of a pointer into the principal mapping (first, last, random aligned slot; misaligned; below sp; ip inside), principal address inside an anonymous r-x mapping, inside an ELF file group, in a hole, 0 or MAX, with and without crash context. Included <=> referenced is checked per thread; records/contexts must remain; the soft error must be present when required; the dump must succeed.",
+        "level_note": "Exploration over generated holder layouts; not exhaustive over slot positions.",
+    },
     "C06": {
         "technique": "image-vs-target oracle on real dumps of sentinel threads with shaped private stacks (chosen in-page sp offsets, guard/unmapped sp, thread-count and size-limit boundary classes)",
         "level_text": "Each listed thread's stack region is judged against its own stack pointer, the checker's /proc/<pid>/maps parse and /proc/<pid>/mem: containment, start page, exact extent to the mapping end when unshortened, byte equality from sp upward, the shortening bounds (position >= 20, never the crash thread, <= 2 KiB) and the guard-page search. Hundreds (quick) to tens of thousands (thorough, all 4096 in-page offsets) of stacks per run. Exploration.",
